@@ -228,3 +228,15 @@ func TestRegression_C20_F11_DatasetNaNQuantile(t *testing.T) {
 		t.Fatalf("F11: quantiles at NaN = %v %v %v, want NaN", lo, hi, q)
 	}
 }
+
+func TestRegression_C13_F12_ExactVariantValidatesZeroWeightAdds(t *testing.T) {
+	s, _ := ddsketch.NewDefaultDDSketchWithExactSummaryStatistics(0.01)
+	for _, v := range []float64{math.NaN(), math.Inf(1), math.Inf(-1), math.MaxFloat64, -math.MaxFloat64} {
+		if err := s.AddWithCount(v, 0); err == nil {
+			t.Fatalf("F12: AddWithCount(%v, 0) on the exact variant returned nil", v)
+		}
+	}
+	if err := s.AddWithCount(5, 0); err != nil || !s.IsEmpty() {
+		t.Fatalf("F12: AddWithCount(5, 0): err=%v empty=%v", err, s.IsEmpty())
+	}
+}
